@@ -300,13 +300,20 @@ PROPERTIES = {
                                                                                                    dict(func="VerifC05EnumInMessage", reach=["C05/enum/decided", "C05/enum/kf"], quick=dict(budget=60), thorough=dict(budget=120))],
         bounds_text={"quick": "as C04, with the obligation 'emitted JSON = reference mapping M(m)' (M transcribed from annotations.proto and the proto3 JSON mapping, DESIGN.md Appendix A) per message type; plus the nested contexts 'singular child' and 'list element' of an unannotated parent encoded through the emitted server response path (marshalResponse)"},
         assumptions=E_ASSUMPTIONS + CODEC_ASSUMPTIONS + ["contexts map value / plain oneof variant / sibling of an unwrap map are not covered yet"]),
-    "C11": E_CODECS(
+    "C11": dict(
+        groups=[
+            E_CODECS(
         harnesses=[dict(func="VerifC11Int64Decoder", reach=["C11/int64/accepted", "C11/int64/rejected"], quick=dict(budget=200), thorough=dict(budget=600)),
                    dict(func="VerifC11TopLevel", reach=["C11/top-level/decided"], quick=dict(budget=200), thorough=dict(budget=600)),
                    dict(func="VerifC11OneofDecoder", reach=["C11/oneof/decided"], quick=dict(budget=200), thorough=dict(budget=600)),
                    dict(func="VerifC11TimeDecoder", reach=["C11/time/accepted", "C11/time/rejected"], quick=dict(budget=200), thorough=dict(budget=600)),
-                   dict(func="VerifC11BinderRejectsTrailingData", reach=["C11/binder/decided"], quick=dict(budget=100), thorough=dict(budget=300))],
+                   dict(func="VerifC11BinderRejectsTrailingData", reach=["C11/binder/decided"], quick=dict(budget=100), thorough=dict(budget=300))]),
+            # the client half: the emitted Go client against the emitted server through the in-process transport
+            # (responses of unknown length, every status): no panic, an error or a decoded response
+            E_ROUNDTRIP(overlay={"gen/roundtrip/zz_verif_c01a.go": "harness/c01/c01_common.go", "gen/roundtrip/zz_verif_c01b.go": "harness/c01/c01_roundtrip.go"},
+                        harnesses=[dict(func="VerifC01RoundTrip", reach=["C01/delivered"], quick=dict(budget=400, parts=8), thorough=dict(budget=1500, parts=16))]),
+        ],
         bounds_text={"quick": "every custom decoder x top-level JSON category (null, bool, number, string, array, syntax error, {}, object with an unknown key); NUMBER-encoded int64/uint64/repeated fields x value of any category (integer full range, string <= 4 over [0-9a.-], fraction, 1e30, bool, null, array, object); discriminated oneof decoders x discriminator/variant of any category; obligations: no reachable panic, non-objects rejected, success only with every inspected value decoded to exactly what was sent"},
         assumptions=E_ASSUMPTIONS + CODEC_ASSUMPTIONS + ["robustness of the real encoding/json / protojson / proto parsers on raw bytes is trusted (library); resource exhaustion by size or depth is outside",
-                                                         "client-side handling of arbitrary responses is covered only as far as C10's harness goes"]),
+                                                         "client side: the round-trip harness of C01 (every RPC, status and content type, response length not announced) under the no-panic obligation; arbitrary malformed response bodies are covered only as far as C10's harness goes"]),
 }
